@@ -5,3 +5,5 @@ import TephraProps.C04
 #print axioms Tephra.Props.C04_tiles
 #print axioms Tephra.Props.C04_fuel
 #print axioms Tephra.Props.exEnv_ok
+#print axioms Tephra.Props.C04_iter_is_next_loop
+#print axioms Tephra.Props.C04_next_loop_delivered
